@@ -637,7 +637,8 @@ def print_items(items, indent, style, out, top=False, in_join=False):
     for it in items:
         k = it["k"]
         if r is not None and not in_join and r.random() < style.get("comment_lines", 0):
-            out.append(pad + "# " + r.choice(["a comment", "section", "-> not a jump", "+ [not a choice] -> X"]))
+            cpad = "" if style.get("comment_flush") and r.random() < 0.5 else pad     # a comment may stand flush left above an indented body
+            out.append(cpad + "# " + r.choice(["a comment", "section", "-> not a jump", "+ [not a choice] -> X"]))
         if k == "line":
             s = pad + print_parts(it["parts"])
             for t in it["tags"]:
